@@ -293,6 +293,24 @@ def rules(ctx: Ctx) -> None:
              and any(n.func.attr in k.methods for k in prog.subclasses(P))}
     ctx.ob("R13.5", "lookup-reads-session-then-source", reads_store and bool(hooks), lookup.loc(),
            "get_table_columns answers from the session store first, else from the provider's own source", trivial=True)
+    # ... in that order: the provider's own source is asked only on paths on which the session store has been consulted and the outcome
+    # tested (what a script (re)defined itself is newer than what the catalogue says about a table of that name)
+    from ..cfg import flow as _flow13
+
+    fl13 = _flow13(prog, lookup)
+    for hc in [n for n in prog.walk_fn(lookup) if isinstance(n, ast.Call) and is_self_attr(n.func) and n.func.attr in hooks]:
+        conditioned = False
+        for t, _p in fl13.facts_for(hc):
+            try:
+                atom = ast.parse(t, mode="eval").body
+            except SyntaxError:
+                continue
+            if any(is_self_attr(x, store_attr) for x in ast.walk(atom)) or any(
+                    is_self_attr(y, store_attr) for x in ast.walk(atom) if isinstance(x, ast.Name) for d_ in prog.value_sources(lookup, x) for y in ast.walk(d_) if isinstance(y, ast.AST)):
+                conditioned = True
+        ctx.ob("R13.5", "lookup-asks-the-source-only-after-the-session-store", conditioned, loc(lookup.mod, hc),
+               f"`{u(hc)[:60]}` is evaluated " + ("only on paths that tested what the session store holds for the table" if conditioned else
+                                                   "whatever the session store holds: a table the script re-defined is answered with the catalogue's stale columns"))
 
 
     # ---- R13.6 session entries never outlive the run that made them (= R12.1): a table the provider does not know must get the same
